@@ -1708,8 +1708,13 @@ impl World {
 					self.oracle_on_failed(n, pi);
 				}
 			},
-			Event::PaymentPathFailed { payment_id, short_channel_id, payment_failed_permanently, failure, .. } => {
+			Event::PaymentPathFailed { payment_id, short_channel_id, payment_failed_permanently, failure, path, .. } => {
 				if let Some(pi) = payment_id.and_then(|id| self.pay_by_id(&id)) {
+					if let (lightning::events::PathFailure::OnPath { .. }, Some(h)) = (&failure, path.hops.first()) {
+						if self.pays[pi].from == n {
+							self.oracle_on_path_failed_chain_depth(n, pi, h.short_channel_id);
+						}
+					}
 					let g = self.nodes[n].disk.lock().unwrap().manager_generation;
 					self.pays[pi].ev.path_failed_gen.push(g);
 					self.pays[pi].ev.path_failed.push((step, short_channel_id, payment_failed_permanently));
